@@ -70,25 +70,36 @@ positions_harness!(line_range_n8, inline_range_n8, 8);
 positions_harness!(line_range_n10, inline_range_n10, 10);
 positions_harness!(line_range_n12, inline_range_n12, 12);
 
-// line_starts (C13): the REAL function on a text of n symbolic ASCII bytes (any of the 128 codes, so "\r\n",
-// "\n", "\r", NUL, ... in every arrangement).  Bounded over n; ASCII only (in UTF-8 a byte 0x0A never occurs inside
-// a multi-byte character, but that argument is not machine-checked here).
+// line_starts (C13): the REAL function on a text of n symbolic bytes that form valid UTF-8 out of one- and two-byte
+// characters (every ASCII code incl. "\r", "\n", NUL, and every U+0080..U+07FF character, in every arrangement).
+// Bounded over n; three- and four-byte characters are not generated.
 // Contract (from the property: a position is the line and column of the byte in the editor's text): the table is
-// 0 followed by the offset just after every '\n' byte, in increasing order - nothing else.
+// 0 followed by the BYTE offset just after every '\n' byte, in increasing order - nothing else.
 macro_rules! line_starts_harness {
     ($name:ident, $n:expr) => {
         #[kani::proof]
         #[kani::unwind(12)]
         fn $name() {
             let bytes: [u8; $n] = kani::any();
+            // valid UTF-8 made of 1- and 2-byte sequences
             let mut i = 0;
-            let mut newlines = 0;
             while i < $n {
-                kani::assume(bytes[i] < 128);
-                if bytes[i] == b'\n' {
+                if bytes[i] < 0x80 {
+                    i += 1;
+                } else {
+                    kani::assume(bytes[i] >= 0xC2 && bytes[i] <= 0xDF);
+                    kani::assume(i + 1 < $n);
+                    kani::assume(bytes[i + 1] >= 0x80 && bytes[i + 1] <= 0xBF);
+                    i += 2;
+                }
+            }
+            let mut newlines = 0;
+            let mut j = 0;
+            while j < $n {
+                if bytes[j] == b'\n' {
                     newlines += 1;
                 }
-                i += 1;
+                j += 1;
             }
             let content = unsafe { std::str::from_utf8_unchecked(&bytes) };
             let ls = line_starts(content);
